@@ -224,34 +224,42 @@ INFLIGHT_DELAYS = [("small", 3000), ("9.9s", 40550), ("10.1s", 41370), ("29.9s",
 
 def gen_inflight(full=True):
     """A control event arriving while the pair-verify request is IN FLIGHT (the accessory takes vdelay ticks before
-    its decisive reaction, or never reacts and the 30 s request timeout cuts in), for every verify outcome kind x
-    five delays x every control kind at three offsets inside the window (incl. two events in one tick: pair /
-    close_then / shutdown_then), and one run without any event in the window; followed by re-use of the pairing.
-    Two hosts, so that a wrong-id answer moves on to the other address (whose verify is again slow)."""
+    its decisive reaction, or never reacts and the 30 s request timeout cuts in): every verify outcome kind x five
+    delays x every control kind at three offsets inside the window (incl. two events in one tick: pair / close_then /
+    shutdown_then), plus one run without any event in the window; followed by re-use of the pairing.  Two hosts, so
+    that a wrong-id answer moves on to the other address, whose verify is slow again (a fourth offset lies in that
+    second window; drop/dropreset of connection 2 only matter there).  full: also with a subscription for the
+    failing kinds, with a late connection_lost of the first connection, and all k for the same-tick pairs."""
     out = []
-    kinds = VKINDS if full else ["ok", "wrongid", "auth", "badsig", "peerclose"]
-    for kind in kinds:
+    for kind in VKINDS:
         for dname, vd in INFLIGHT_DELAYS:
             win = min(vd, THIRTY_S)
-            first = [kind, 700, 0, vd]
-            second = ["ok", 0, 0, 2000] if kind != "ok" else ["badsig", 0, 0, 2000]
-            base = dict(hosts=2, dials=[["connect", 0]] + [["connect", 1]] * 7, verifies=[first, second, ["ok", 0]])
             req = 1                        # the request goes out in the tick of the first ensure
             ctrls = [("ensure", 2), ("cancel", 1), ("zeroconf", [0, 1]), ("zeroconf", [1]), ("soon", 0), ("drop", 1),
-                     ("dropreset", 1), ("close", 0), ("shutdown", 0),
+                     ("dropreset", 1), ("drop", 2), ("dropreset", 2), ("close", 0), ("shutdown", 0),
                      ("close_then", [1, "ensure", 7]), ("shutdown_then", [2, "zeroconf", [0]]),
                      ("pair", [1, "drop", 1, "close", 0]), ("pair", [0, "dropreset", 1, "ensure", 7]),
                      ("pair", [2, "close", 0, "drop", 1]), ("pair", [1, "ensure", 7, "dropreset", 1])]
+            if full:
+                ctrls += [("pair", [k, a, 1, "shutdown", 0]) for k in (0, 1, 2, 3) for a in ("drop", "dropreset")]
+                ctrls += [("shutdown_then", [k, "ensure", 7]) for k in (0, 1, 3)]
             offs = sorted({req + 2, req + (win // 2 | 1) + 1, req + win - 2})
+            if kind == "wrongid" and vd < THIRTY_S:
+                offs.append(req + win + 1000)          # the verify on the other address is in flight
             after = req + win + 2 * SIXTY_S
             reuse = [[after + 1, "ensure", 8], [after + 20001, "drop", 2], [after + 20003, "drop", 3], [after + 90001, "ensure", 9]]
-            for subs in ((False, True) if kind == "ok" else (False,)):
-                out.append(dict(base, subs=subs, controls=[[req, "ensure", 1]] + reuse, end=after + 200001,
-                                tag=f"inflight/none/{dname}"))
+            variants = [(False, 0)] + ([(True, 0)] if kind == "ok" or full else []) + ([(False, 2500)] if full else [])
+            for subs, lost in variants:
+                first = [kind, 700, lost, vd]
+                second = ["ok", 0, 0, 2000] if kind != "ok" else ["badsig", 0, 0, 2000]
+                base = dict(hosts=2, dials=[["connect", 0]] + [["connect", 1]] * 7, verifies=[first, second, ["ok", 0]],
+                            subs=subs, end=after + 200001)
+                out.append(dict(base, controls=[[req, "ensure", 1]] + reuse, tag=f"inflight/none/{dname}"))
                 for ck, ca in ctrls:
                     for t in offs:
-                        sc = dict(base, subs=subs, controls=[[req, "ensure", 1], [t, ck, ca]] + reuse, end=after + 200001,
-                                  tag=f"inflight/{ck}/{dname}")
+                        if ck in ("drop", "dropreset") and ca == 2 and t <= req + win:
+                            continue
+                        sc = dict(base, controls=[[req, "ensure", 1], [t, ck, ca]] + reuse, tag=f"inflight/{ck}/{dname}")
                         if ck in ("pair", "close_then"):
                             # the second event's effects interleave with the first's inside one tick (scheduler's
                             # choice; the snapshot is taken after both): judged by the property oracles only
@@ -260,14 +268,23 @@ def gen_inflight(full=True):
     return out
 
 
+def rand_vdelay(r, p):
+    """0 with probability 1-p; otherwise a reaction delay biased to the boundaries (10 s waiter deadline, 30 s request
+    timeout; exactly 30 s is a tie the model flags) or no reaction at all."""
+    if r.random() >= p:
+        return 0
+    return r.choice([1, 7, 300, 2500, 9000, TEN_S - 1, TEN_S + 1, 3 * TEN_S // 2, THIRTY_S - 1, THIRTY_S, THIRTY_S + 1, NEVER,
+                     r.randrange(1, THIRTY_S), r.randrange(1, 2 * THIRTY_S)])
+
+
 def gen_stale_loss(r, n):
     """Abandoned connections whose connection_lost arrives late (send buffer still draining)."""
     out = []
     for _ in range(n):
         nh = r.choice([1, 2])
         k = r.choice([2, 3, 4])
-        verifs = [[r.choice(["badtag", "badsig", "invalid", "garbage", "wrongid", "http4xx"]), 0, r.choice([500, 3000, 5000, 20000])]
-                  for _ in range(k)] + [["ok", 0]]
+        verifs = [[r.choice(["badtag", "badsig", "invalid", "garbage", "wrongid", "http4xx"]), 0, r.choice([500, 3000, 5000, 20000]),
+                   rand_vdelay(r, 0.3)] for _ in range(k)] + [["ok", 0, 0, rand_vdelay(r, 0.3)]]
         dials = [["connect", r.choice([0, 1])] for _ in range(k + 3)]
         ctr = [[1, "ensure", 1]]
         if r.random() < 0.5:
@@ -286,9 +303,10 @@ def gen_random(r, n, max_time=600000):
             x = r.random()
             dials.append(["refused"] if x < 0.3 else ["hang"] if x < 0.4 else ["connect", r.randrange(nh)])
         verifs = []
+        pv = r.choice([0, 0.25, 0.6])          # share of slow / silent accessories in this scenario
         for _ in range(r.choice([0, 1, 3, 6, 10])):
             k = r.choice(VKINDS + ["ok", "ok", "wrongid"])
-            verifs.append([k, r.choice([0, 0, 300, 1000, 5000]), r.choice([0, 0, 0, 4000])])
+            verifs.append([k, r.choice([0, 0, 300, 1000, 5000]), r.choice([0, 0, 0, 4000]), rand_vdelay(r, pv)])
         ctr, t, nw = [], 0, 0
         shut = False
         for _ in range(r.choice([1, 2, 4, 7, 10])):
@@ -336,12 +354,12 @@ def gen_long(r, n):
         dials, verifs = [], []
         if pattern == "wrongid-first":
             dials = [["connect", 0]]
-            verifs = [["wrongid", 0]]
+            verifs = [["wrongid", 0, 0, rand_vdelay(r, 0.3)]]
         elif pattern == "mixed":
             for _ in range(30):
                 dials.append(r.choice([["refused"], ["hang"], ["connect", 0], ["connect", 1]]))
             for _ in range(15):
-                verifs.append([r.choice(["wrongid", "badsig", "peerclose", "garbage", "invalid"]), 0])
+                verifs.append([r.choice(["wrongid", "badsig", "peerclose", "garbage", "invalid"]), 0, 0, rand_vdelay(r, 0.3)])
         end = r.choice([2 * 3600 * 4096 + 1, 3600 * 4096 + 1, 1800 * 4096 + 1])
         ctr = [[1, "ensure", 1]]
         if r.random() < 0.4:
@@ -358,10 +376,28 @@ def _vdelay_of(sc, cid):
     return v[3] if len(v) > 3 else 0
 
 
+def _connected_unverified(sc, tr):
+    """The pairing must not count as connected on a connection whose pair-verify the accessory has not (yet) answered
+    with success: observable = snapshot says connected while the only candidate connection's request is still in
+    flight / failed / timed out (reaction time and kind are the scenario's, i.e. the accessory's own knowledge)."""
+    bad = []
+    ver = {e[2]: e for e in tr if e[1] == "verify"}
+    for e in tr:
+        if e[1] == "snap" and e[4]:
+            for c in e[3]:
+                v = ver.get(c)
+                vd = _vdelay_of(sc, c)
+                if v is None or v[3] != "ok" or vd >= THIRTY_S or e[0] < v[0] + vd:
+                    bad.append(("connected-while-unverified", f"the pairing reports connected at tick {e[0]} on connection {c} "
+                                f"whose pair-verify {'was not answered with success' if v is None or v[3] != 'ok' or vd >= THIRTY_S else 'answer is only due at tick ' + str(v[0] + vd)}"))
+                    return bad
+    return bad
+
+
 def oracle_c10(sc, tr):
     """Returns list of (key, text) property failures visible in the trace."""
     sc = dict(sc, controls=expand_controls(sc))
-    bad = []
+    bad = _connected_unverified(sc, tr)
     nh_max = max([sc["hosts"]] + [len(c[2]) for c in sc.get("controls", []) if c[1] == "zeroconf"])
     own_cancels = {(c[2], c[0]) for c in sc.get("controls", []) if c[1] == "cancel"}
     ensure_at = {c[2]: c[0] for c in sc.get("controls", []) if c[1] == "ensure"}
@@ -399,15 +435,43 @@ def oracle_c10(sc, tr):
     ext = sorted(c[0] for c in sc.get("controls", []))
     dts = sorted(dial_ticks)
     hangs = sorted(e[0] for e in tr if e[1] == "dial" and e[3] == "hang")
+    verif_evs = [e for e in tr if e[1] == "verify"]
+    opened_host = {e[2]: e[3] for e in tr if e[1] == "opened"}
+
+    def inflight(lo, hi):
+        """longest time the pair-verify requests that arrived in [lo, hi) may stay in flight (30 s request timeout)"""
+        return sum(min(_vdelay_of(sc, e[2]), THIRTY_S) for e in verif_evs if lo <= e[0] < hi)
     for a, b in zip(dts, dts[1:]):
         if any(a <= x <= b for x in ext):
             continue
         gap = b - a
         nhang = sum(1 for h in hangs if a <= h < b)       # every hanging dial round adds its 10 s timeout
-        if gap > SIXTY_S + TEN_S * nhang:
-            bad.append(("gap-too-long", f"no attempt between ticks {a} and {b} ({gap / 4096:.2f} s, {nhang} dial timeouts)"))
+        if gap > SIXTY_S + TEN_S * nhang + inflight(a, b):
+            bad.append(("gap-too-long", f"no attempt between ticks {a} and {b} ({gap / 4096:.2f} s, {nhang} dial timeouts, "
+                        f"{inflight(a, b) / 4096:.2f} s of pair-verify in flight)"))
         if gap < 3072:
-            bad.append(("gap-too-short", f"attempts at {a} and {b} only {gap} ticks apart"))
+            # an immediate retry is legitimate only to move on to another address: the attempt at a reached an
+            # accessory that (after a slow pair-verify) answered with the wrong pairing id, and the attempt at b
+            # no longer offers that address
+            wrong = [opened_host.get(e[2]) for e in verif_evs if a <= e[0] < b and e[3] == "wrongid"]
+            cands_b = [h for x in tr if x[1] == "dial" and x[0] == b for h in x[2]]
+            if not wrong or any(h in cands_b for h in wrong):
+                bad.append(("gap-too-short", f"attempts at {a} and {b} only {gap} ticks apart"))
+    # a silent accessory cannot stall the connector: a pair-verify request that arrived at tick t is over by t + 30 s
+    # - its connection closed, or in use (the pairing connected on it)
+    closed_tick = {}
+    for e in tr:
+        if e[1] == "closed":
+            closed_tick.setdefault(e[2], e[0])
+    snaps = [e for e in tr if e[1] == "snap"]
+    for e in verif_evs:
+        limit = e[0] + THIRTY_S
+        if closed_tick.get(e[2], limit + 1) <= limit:
+            continue
+        later = [x for x in snaps if x[0] > limit]
+        if later and not (later[0][4] and e[2] in later[0][3]) and closed_tick.get(e[2], later[0][0] + 1) > later[0][0]:
+            bad.append(("connector-stalled-in-verify", f"pair-verify request on connection {e[2]} arrived at tick {e[0]}; "
+                        f"at tick {later[0][0]} (> 30 s later) the connection is neither closed nor in use"))
     # retries continue: disconnected at the end, not closed, last outcome not auth => a connector is alive
     end = [e for e in tr if e[1] == "snap" and e[2] == "end"]
     if end and not closes:
@@ -422,7 +486,8 @@ def oracle_c10(sc, tr):
         if started and not e[4] and e[5] >= 1 and dts and not any(x >= dts[-1] for x in ext):
             lastd = [x for x in tr if x[1] == "dial" and x[0] == dts[-1]]
             failing = all(x[3] in ("refused", "hang") for x in lastd)
-            bound = SIXTY_S + TEN_S * max(1, sum(1 for x in lastd if x[3] == "hang")) + (0 if failing else 10 * TEN_S)
+            bound = (SIXTY_S + TEN_S * max(1, sum(1 for x in lastd if x[3] == "hang")) + (0 if failing else 10 * TEN_S)
+                     + inflight(dts[-1], e[0]))
             if e[0] - dts[-1] > bound:
                 bad.append(("retries-stopped", f"connector alive but no attempt since tick {dts[-1]} "
                             f"({(e[0] - dts[-1]) / 4096:.1f} s before the end at {e[0]})"))
@@ -440,7 +505,7 @@ def oracle_c10(sc, tr):
 
 def oracle_c11(sc, tr):
     sc = dict(sc, controls=expand_controls(sc))
-    bad = []
+    bad = _connected_unverified(sc, tr)
     for e in tr:
         if e[1] == "snap":
             if len(e[3]) > 1:
@@ -488,6 +553,12 @@ def oracle_c11(sc, tr):
 
 
 # ------------------------------------------------------------------ main driver
+def _slowest(sc):
+    d = max([v[3] if len(v) > 3 else 0 for v in sc.get("verifies", [])], default=0)
+    return ("0" if d == 0 else "<10s" if d < TEN_S else "10s..30s" if d < THIRTY_S else "=30s(tie)" if d == THIRTY_S
+            else "never(>30s)")
+
+
 def run_core(ctx, pid, oracle, gens, corr_name):
     import c10sim
     tier, seed = ctx["tier"], ctx["seed"]
@@ -531,6 +602,8 @@ def run_core(ctx, pid, oracle, gens, corr_name):
                  sample=dict(scenario=scj, trace_head=itrace[:12]) if cov.evaluations % 1499 == 0 else None,
                  family=sc.get("tag", "?").split("/")[0], hosts=sc["hosts"], attempts=min(ndial, 20),
                  address_style=sc.get("style", "v4"),
+                 slowest_verify=_slowest(sc), inflight_control=(sc.get("tag", "").split("/") + ["-", "-"])[1]
+                 if sc.get("tag", "").startswith("inflight/") else "-",
                  controls=len(sc.get("controls", [])))
     if not ctx.get("replay"):
         step = max(1, len(scs) // 6)
